@@ -591,6 +591,9 @@ pub struct StepObs {
     /// Per output: (free before, free after).
     pub outs: Vec<(usize, usize)>,
     pub live_windows: usize,
+    /// The block's own eof() after this call (what a runner asks after a wait
+    /// verdict).
+    pub eof: bool,
 }
 
 /// The observations of a whole execution.
@@ -653,8 +656,15 @@ fn step(inst: &mut Instance, a: Act, last: Option<&Verdict>) -> StepObs {
         // After a panic inside work() the stream mutexes may be poisoned.
         inst.observe();
     }
+    let eof = if matches!(verdict, Verdict::WaitFunc | Verdict::WaitStream { .. }) {
+        let b = &mut inst.block;
+        catch(|| rustradio::block::BlockEOF::eof(&mut **b)).unwrap_or(false)
+    } else {
+        false
+    };
     StepObs {
         act: a,
+        eof,
         verdict,
         activity,
         ins: inst
